@@ -8,6 +8,7 @@ Sections
                 directly on compute_regressor for every hrf model, on commensurate and incommensurate grids
   dmtx          make_dmtx column assembly + names (names vs Model.dmtx_names), drifts, kernels, CSV round trip
   paradigm      experimental_paradigm CSV loader round trip
+  poly          _poly_drift vs PolyModel.poly_drift (all columns 1e-9; shape and constant column exact)
 """
 import itertools
 import os
@@ -1282,6 +1283,66 @@ def sec_paradigm(ck, ep):
     ck.section("paradigm", cases=npar)
 
 
+# ------------------------------------------------------------------ section: _poly_drift vs PolyModel.poly_drift
+HDR_POLY = HDR + "From NV.C07 Require Import PolyModel.\n"
+
+
+def sec_poly(ck, dm):
+    """_poly_drift(order, frametimes) on the real code vs PolyModel.poly_drift evaluated in Coq on the same (exact
+    rational) frame times: all columns at 1e-9 (the implementation goes through float powers and numpy pinv), the
+    column count and the constant column exactly.  Theorems poly_drift_shape_constant_last and
+    poly_drift_independent_of_time_origin_and_unit are about this model."""
+    rng = ck.rng("poly")
+    cases = []
+    ns = (2, 3, 5, 8) if not ck.thorough() else (2, 3, 4, 5, 8, 9, 12)
+    for n in ns:
+        for TR in (1.0, 2.0, 0.5, 2.5, 0.72):
+            origins = (0.0, TR / 2, -3 * TR, 0.3, 1000.0) if ck.thorough() else ((0.0, -3 * TR, 0.3, 1000.0)[(n + int(TR * 4)) % 4], TR / 2)
+            for f0 in origins:
+                for order in range(0, min(n - 1, 4 if ck.thorough() else 3) + 1):
+                    cases.append(("uniform", f0 + TR * np.arange(n), order))
+        # sparse / irregular acquisitions and a listing that is not ascending
+        irr = np.cumsum(rng.integers(1, 6, size=n)) * 0.25 + float(rng.integers(-8, 9))
+        cases.append(("irregular", irr, min(n - 1, 2)))
+        cases.append(("unsorted", irr[rng.permutation(n)], min(n - 1, 2)))
+    terms, meta = [], []
+    for kind, ft, order in cases:
+        ft = np.asarray(ft, float)
+        inp = {"order": order, "frametimes": ft.tolist(), "kind": kind}
+        try:
+            pol = guarded(ck, "_poly_drift", inp, dm._poly_drift, order, ft.copy())
+        except ImplRaised:
+            continue
+        pol = np.asarray(pol, float)
+        far = abs(ft[0]) > 2 * (ft.max() - ft.min())
+        feat = kind + ("/far-origin" if far else "")
+        ck.count(("poly", order, ft.tolist()), nontrivial=order >= 1, bucket="poly:%s:order%d" % (feat, order))
+        if pol.shape != (ft.size, order + 1):
+            ck.fail("poly/column-count/" + feat, "_poly_drift(order=%d) returns shape %s for %d scans" % (order, pol.shape, ft.size),
+                    dict(inp, impl_shape=list(pol.shape)))
+            continue
+        if not np.all(np.isfinite(pol)):
+            ck.fail("poly/not-finite/" + feat, "_poly_drift returns nan/inf", dict(inp, impl=pol.T.tolist()))
+            continue
+        if not np.all(pol[:, -1] == 1.0):      # theorem poly_drift_shape_constant_last, on the implementation
+            ck.fail("poly/constant-not-last/" + feat, "last column of _poly_drift is not the constant 1", dict(inp, impl=pol.T.tolist()))
+        cols = clist([cql(pol[:, j].tolist()) for j in range(pol.shape[1])])
+        terms.append("list_eqb (qlist_close (1 # 1000000000)) (poly_drift %s %s) %s" % (cnat(order), cql(ft.tolist()), cols))
+        meta.append(dict(inp, impl_columns=pol.T.tolist(), feature=feat, tolerance="1e-9"))
+    if meta:
+        ck.sample({"section": "poly", **{k: meta[len(meta) // 2][k] for k in ("order", "frametimes", "impl_columns")}})
+    if ck.build.ok and terms:
+        res = ck.coq_bools(HDR_POLY, terms, shard=12, name="poly")
+        ck.cov["traces_validated_against_impl"] += len(res)
+        for ok, m in zip(res, meta):
+            if not ok:
+                model = ck.coq_show(HDR_POLY, "poly_drift %s %s" % (cnat(m["order"]), cql(m["frametimes"])))
+                ck.fail("model-vs-impl/poly_drift/" + m["feature"], "PolyModel.poly_drift (powers of (t-tmin)/(tmax-tmin), Gram-Schmidt, constant "
+                        "last) and _poly_drift disagree beyond 1e-9 for order=%d" % m["order"], dict(m, model=model))
+                break
+    ck.section("poly", cases=len(terms))
+
+
 def run(ck):
     ck.cov["rule"] = (
         "hr/regressor: dyadic frame grids TR in {1,2,0.5}, n-1 a power of two, start 0/TR/4TR, min_onset in {-24,-8,0,-3,-7,-1.5,-3.5}, "
@@ -1301,7 +1362,7 @@ def run(ck):
     import traceback
     for name, fn, args in (("oracles", sec_oracles, (ck, hm)), ("hr", sec_hr, (ck, hm)), ("regressor", sec_regressor, (ck, hm)),
                            ("convolve", sec_convolve, (ck, hm, dm, ep)),
-                           ("full_rank", sec_full_rank, (ck, dm)), ("state", sec_state, (ck, hm, dm, ep)),
+                           ("poly", sec_poly, (ck, dm)), ("full_rank", sec_full_rank, (ck, dm)), ("state", sec_state, (ck, hm, dm, ep)),
                            ("dmtx", sec_dmtx, (ck, hm, dm, ep)), ("paradigm", sec_paradigm, (ck, ep))):
         t0 = time.time()
         try:
